@@ -2,8 +2,9 @@
 import ast
 
 from ..model import AnalysisError
-from ..lib import FV, alias_term, decode_new, decode_call, phi_members, is_sym, is_const, is_str
-from ..cfg import always_raises
+from ..lib import (FV, alias_term, decode_new, decode_call, phi_members, is_sym, is_const, is_str, simple_assigns,
+                   order_equiv)
+from ..cfg import always_raises, walk_stmts
 from . import common as cm
 from .common import FIELD, MESH, REGION
 from .c08 import write_effects
@@ -46,6 +47,14 @@ ANCHORS = [
     'region.Region.__eq__',
 ]   # functions whose code the property is anchored in (mutation analysis, evidence)
 
+# survivors of the single-edit mutation analysis that are not violations of THIS property (function regex, edit regex, why)
+AUTOMUT_TRIAGE = [
+    (r".", r"drop keyword valid=|logical_and->logical_or", "the RESULT's validity is C08's subject (C08.D1/D2 report it); C03 speaks of operands' validity only"),
+    (r"__(pos|neg|abs)__|\.(real|imag|phase|abs|conjugate|cross|angle|__array_ufunc__)$", r"drop keyword (unit|vdim_mapping|vdims)=",
+     "labels/mapping/unit of non-commutative and unary results are not part of the statement (a mapping without its labels IS reported, D6)"),
+    (r"\.cross$", r"line \d+: and<->or", "equivalent: the compatibility test before it makes both component counts equal"),
+]
+
 OPS = {"__add__": ("np.add", "+"), "__sub__": ("np.subtract", "-"), "__mul__": ("np.multiply", "*"),
        "__truediv__": ("np.divide", "/"), "__pow__": ("np.power", "**")}
 REFLECTED = {"__radd__": "other + self", "__rmul__": "other * self", "__rsub__": "other - self"}
@@ -77,6 +86,7 @@ def run(chk):
     d5_commutative_metadata(chk, repo)
     d6_label_mapping(chk, repo)
     d7_ctor_conformance(chk, repo)
+    d8_conditions(chk, repo)
     cm.no_dtype_narrowing(chk, repo, "C03", "C03.D2",
                           ["field.Field._apply_operator", "field.Field.dot", "field.Field.cross", "field.Field.angle",
                            "field.Field.__abs__", "field.Field.__neg__", "field.Field.phase", "field.Field.abs",
@@ -535,3 +545,376 @@ def d7_ctor_conformance(chk, repo):
                    f"`{v.src(s.call)}`: nvdim supplied={'nvdim' in s.args}, keywords swallowed by **kwargs={s.unbound_kw}",
                    v.f, s.call, nontrivial=False)
     chk.require(n >= 30, f"C03.D7: only {n} Field constructions in field.py (floor 30)")
+
+
+# ------------------------------------------------------------------ D8
+def _raise_conds(v, stmts, exc=None):
+    """[(If stmt, condition term under which the block raises)] for the directly raising Ifs among stmts"""
+    out = []
+    for st in stmts:
+        if not isinstance(st, ast.If):
+            continue
+        if always_raises(st.body):
+            r = st.body[-1]
+            name = None
+            if isinstance(r, ast.Raise) and r.exc is not None:
+                e = r.exc.func if isinstance(r.exc, ast.Call) else r.exc
+                name = ast.unparse(e).split(".")[-1]
+            if exc is None or name in exc:
+                out.append((st, v.ev.term(st.test, at=st)))
+    return out
+
+
+def _none_conds(v, stmts):
+    """[(If stmt, condition term under which a local is reset to None)]"""
+    out = []
+    for st in walk_stmts(stmts):
+        if not isinstance(st, ast.If):
+            continue
+        for fld, neg in (("body", False), ("orelse", True)):
+            blk = getattr(st, fld)
+            if any(isinstance(x, ast.Assign) and isinstance(x.value, ast.Constant) and x.value.value is None for x in blk):
+                t = v.ev.term(st.test, at=st)
+                out.append((st, v.ev._not(t) if neg else t))
+    return out
+
+
+def d8_conditions(chk, repo):
+    chk.rule("C03.D8", "the conditions that select metadata and refuse operands are the documented ones (decided up to the "
+                       "normal form, and for component-count comparisons up to the finitely many order types admitted by the "
+                       "compatibility test that dominates them); results of << wrappers, angle and the ufunc protocol are "
+                       "built from the computed array")
+    # ---- generic operator path
+    v = FV(repo, "field.Field._apply_operator", param_types={"other": FIELD})
+    ifst, first = cm.field_branch_stmt(v, "other")
+    other = cm.typed_param(v, "other", FIELD)
+    s_n = v.spec("self.nvdim")
+    o_n = v.spec("o.nvdim", env={"o": other})
+    o_vd = v.spec("o.vdims", env={"o": other})
+    o_vm = v.spec("o.vdim_mapping", env={"o": other})
+    want = v.spec("self.nvdim == 1 and o.nvdim > 1", env={"o": other})
+    compat = lambda vals: vals[0] == vals[1] or vals[0] == 1 or vals[1] == 1    # established by the mesh/dim check (D4)
+    for st in walk_stmts(ifst.body):
+        if not isinstance(st, ast.If):
+            continue
+        takes = [a for a in simple_assigns(v, list(walk_stmts(st.body))) if v.eq(a[2], o_vd) or v.eq(a[2], o_vm)]
+        if not takes:
+            continue
+        cond = v.ev.term(st.test, at=st)
+        ok = v.eq(cond, want) or order_equiv(v.ctx, cond, want, [s_n, o_n], pre=compat) is True
+        chk.ob("field.Field._apply_operator::field-branch::takes-right-metadata-iff-scalar-times-vector", ok, "C03.D8",
+               f"the right operand's labels/mapping are taken under `{v.src(st.test)}`; they must be taken exactly when the "
+               "left operand is a scalar field and the right one is not (otherwise a*b and b*a differ, or a vector "
+               "field's labels are replaced by a scalar field's)", v.f, st)
+    for r, a in cm.returned_news(v, via=[first]):
+        val = a.get("value")
+        for st, cond in _none_conds(v, [s for s in v.body if s is not ifst]):
+            cond = v.ev.term(st.test, at=st, via=[first])
+            h = v.ctx.head_of(cond)
+            ok = False
+            if h and h[0] == "cmp" and h[1] == "ne" and val is not None:
+                last = v.spec("a.shape[-1]", env={"a": val})
+                sides = list(v.ctx.args_of(cond))
+                for i in (0, 1):
+                    if v.eq(sides[i], last):
+                        mem = phi_members(v.ctx, sides[1 - i])
+                        ok = all(v.eq(m, s_n) or v.eq(m, o_n) for m in mem) and any(v.eq(m, s_n) for m in mem)
+            chk.ob("field.Field._apply_operator::labels-dropped-iff-component-count-changes", ok, "C03.D8",
+                   f"labels are reset under `{v.src(st.test)}` = {v.show(cond)}; expected: the tracked component count differs "
+                   "from the result array's last axis", v.f, st)
+    # constant-vector operand: incompatible component counts refused
+    cur = ifst
+    found = 0
+    want = v.spec("not (self.array.shape == np.shape(other) or self.nvdim == len(other) or self.nvdim == 1)")
+    while cur.orelse and len(cur.orelse) == 1 and isinstance(cur.orelse[0], ast.If):
+        cur = cur.orelse[0]
+        if always_raises(cur.body):
+            continue
+        for st, cond in _raise_conds(v, cur.body, ("TypeError", "ValueError")):
+            found += 1
+            chk.ob("field.Field._apply_operator::array-operand-shape-guard", v.eq(cond, want), "C03.D8",
+                   f"array-like operands are refused under {v.show(cond)}; expected: neither a per-cell array of the field's "
+                   "shape, nor one value per component, nor a scalar field", v.f, st)
+    chk.ob("field.Field._apply_operator::array-operand-shape-guard-present", found >= 1, "C03.D8",
+           "no refusal of array-like operands with an incompatible component count", v.f, ifst)
+    # ---- cross: 3-component operands only
+    v = FV(repo, "field.Field.cross", param_types={"other": FIELD})
+    ifst, first = cm.field_branch_stmt(v, "other")
+    other = cm.typed_param(v, "other", FIELD)
+    s_n = v.spec("self.nvdim")
+    o_n = v.spec("o.nvdim", env={"o": other})
+    want = v.spec("self.nvdim != 3 or o.nvdim != 3", env={"o": other})
+    ok = False
+    seen = []
+    for st, cond in _raise_conds(v, ifst.body, ("ValueError", "TypeError")):
+        seen.append(v.show(cond))
+        if v.eq(cond, want) or order_equiv(v.ctx, cond, want, [s_n, o_n], pre=lambda x: x[0] == x[1]) is True:
+            ok = True
+    chk.ob("field.Field.cross::three-component-guard", ok, "C03.D8",
+           f"the field-operand branch must refuse operands that do not have three components; raising conditions found: {seen}",
+           v.f, ifst)
+    # ---- unsupported operand types: the TypeError is reached exactly by the types no branch accepts
+    for q, pname in (("field.Field.dot", "other"), ("field.Field.cross", "other")):
+        v = FV(repo, q)
+        for r, name in v.raises():
+            if name != "TypeError":
+                continue
+            par = v.cfg.parent.get(id(r))
+            if not par or not isinstance(par[0], ast.If) or par[1] != "body":
+                continue
+            t = v.ev._not(v.ev.term(par[0].test, at=par[0]))
+            c = decode_call(v.ctx, t)
+            ok = bool(c and c[0] == "isinstance" and c[1] and is_sym(v.ctx, c[1][0], f"param:{pname}"))
+            chk.ob(f"{q}::typeerror-for-unsupported-only", ok, "C03.D8",
+                   f"TypeError is raised under `{v.src(par[0].test)}`; it must be the negation of a type test of the operand "
+                   "(otherwise supported constant vectors are refused and unsupported objects reach numpy)", v.f, par[0])
+    for q, guards in (("field.Field.is_same_vectorspace", [("not isinstance(other, self.__class__)", "TypeError")]),
+                      ("mesh.Mesh.allclose", [("not isinstance(other, df.Mesh)", "TypeError"),
+                                              ("self.region.dims != other.region.dims", "ValueError")])):
+        v = FV(repo, q, param_types={"other": FIELD if q.startswith("field") else MESH})
+        for text, exc in guards:
+            ok, det = v.guard(text, exc=(exc,))
+            if not ok and "df.Mesh" in text:
+                ok, det = v.guard("not isinstance(other, self.__class__)", exc=(exc,))
+            chk.ob(f"{q}::guard[{text}]", ok, "C03.D8", det, v.f)
+    for q in ("mesh.Mesh.__eq__", "region.Region.__eq__"):
+        v = FV(repo, q)
+        for r in v.returns():
+            par = v.cfg.parent.get(id(r))
+            if isinstance(r.value, ast.Constant) and par and isinstance(par[0], ast.If):
+                c = v.ev.term(par[0].test, at=par[0])
+                if par[1] != "body":
+                    c = v.ev._not(c)
+                _isinstance_polarity(chk, v, q, par[0], c, "is declared unequal")
+            if isinstance(r.value, ast.Constant):
+                chk.ob(f"{q}::foreign-type-is-unequal", r.value.value is False, "C03.D8",
+                       f"`{v.src(r)}`: the fallback for objects that are not compared attribute by attribute must be False",
+                       v.f, r)
+    # ---- Region.allclose: tolerances scale with the region
+    v = FV(repo, "region.Region.allclose", param_types={"other": REGION})
+    d_atol = v.spec("np.min(self.edges) * self.tolerance_factor")
+    d_rtol = v.spec("self.tolerance_factor")
+    n = 0
+    for r in v.returns():
+        if r.value is None:
+            continue
+        t = v.ev.term(r.value, at=r)
+        for aid in v.ctx.find_atoms(t, lambda h, a: h[0] == "call" and h[1] == "np.allclose"):
+            c = decode_call(v.ctx, v.ctx.var(aid))
+            n += 1
+            for kw, default in (("atol", d_atol), ("rtol", d_rtol)):
+                x = c[2].get(kw)
+                mem = phi_members(v.ctx, x) if x is not None else []
+                ok = len(mem) == 2 and any(is_sym(v.ctx, m, f"param:{kw}") for m in mem) and any(v.eq(m, default) for m in mem)
+                chk.ob(f"region.Region.allclose::np.allclose#{n}::{kw}", ok, "C03.D8",
+                       f"{kw}={v.show(x)}; expected the caller's {kw} or the default {v.show(default)} (numpy's absolute "
+                       "default 1e-8 is larger than nanometre-sized regions: different meshes would compare equal)", v.f, r)
+    chk.require(n >= 2, "Region.allclose: the two corner comparisons vanished")
+    conds = _none_or_default_conds(v)
+    for kw in ("atol", "rtol"):
+        want = v.spec(f"{kw} is None")
+        ok = any(v.eq(c, want) for st, c in conds)
+        chk.ob(f"region.Region.allclose::default-{kw}-iff-none", ok, "C03.D8",
+               f"the default {kw} must be chosen exactly when the caller passed None; conditions found: "
+               f"{[v.show(c) for st, c in conds]}", v.f)
+    # ---- stacking
+    v = FV(repo, "field.Field.__lshift__", param_types={"other": FIELD})
+    ifst, first = cm.field_branch_stmt(v, "other")
+    other = cm.typed_param(v, "other", FIELD)
+    wraps = {"field.Field.__lshift__": ["self << self.__class__(self.mesh, nvdim=1, value=other)",
+                                        "self << self.__class__(self.mesh, nvdim=len(other), value=other)"],
+             "field.Field.__rlshift__": ["self.__class__(self.mesh, nvdim=1, value=other) << self",
+                                         "self.__class__(self.mesh, nvdim=len(other), value=other) << self"]}
+    for q, specs in wraps.items():
+        w = FV(repo, q)
+        got = []
+        for r in w.returns():
+            if r.value is None:
+                continue
+            t = w.ev.term(r.value, at=r)
+            h = w.ctx.head_of(t)
+            if h and h[0] == "binop" and h[1] == "LShift":
+                got.append((r, t))
+        wants = [w.spec(x) for x in specs]
+        for r, t in got:
+            chk.ob(f"{q}::wraps-plain-operand", any(w.eq(t, x) for x in wants), "C03.D8",
+                   f"returns {w.show(t)}; numbers become a 1-component and sequences a len()-component field on self.mesh "
+                   "holding that value, stacked on the side the operand was written on", w.f, r)
+        chk.ob(f"{q}::both-plain-operand-kinds", all(any(w.eq(t, x) for r, t in got) for x in wants), "C03.D8",
+               "number and sequence operands must both be wrapped and stacked", w.f)
+    for r, a in cm.returned_news(v, via=[first]):
+        if not v.cfg.reachable(v.cfg.node(first), v.cfg.node(r)):
+            continue
+        cat = v.spec("self.vdims + o.vdims", env={"o": other})
+        mem = phi_members(v.ctx, a["vdims"]) if a.get("vdims") is not None else []
+        ok = bool(mem) and all(is_const(v.ctx, m, None) or v.eq(m, cat) for m in mem) and any(v.eq(m, cat) for m in mem)
+        chk.ob("field.Field.__lshift__::labels-concatenated", ok, "C03.D8",
+               f"vdims={v.show(a.get('vdims'))}; expected self's labels followed by other's (or None)", v.f, r)
+        mm = phi_members(v.ctx, a["vdim_mapping"]) if a.get("vdim_mapping") is not None else []
+        merged = None
+        for m in mm:
+            h = v.ctx.head_of(m)
+            if h and h[0] == "mut" and h[1] == "update":
+                ar = v.ctx.args_of(m)
+                if len(ar) == 2 and v.eq(ar[0], v.spec("self.vdim_mapping")) and \
+                        v.eq(ar[1], v.spec("o.vdim_mapping", env={"o": other})):
+                    merged = m
+        ok = merged is not None and all(m is merged or is_const(v.ctx, m, None) for m in mm)
+        chk.ob("field.Field.__lshift__::mapping-merged", ok, "C03.D8",
+               f"vdim_mapping={v.show(a.get('vdim_mapping'))}; expected self's mapping updated with other's (or None)", v.f, r)
+        conds = _none_conds(v, [s for s in v.body if s is not ifst])
+        wants = [("either-operand-unlabelled", v.spec("self.vdims is None or o.vdims is None", env={"o": other})),
+                 ("duplicate-labels", v.spec("len(c) != len(set(c))", env={"c": cat}))]
+        if merged is not None and a.get("nvdim") is not None:
+            wants.append(("mapping-incomplete", v.spec("len(m) != n", env={"m": merged, "n": a["nvdim"]})))
+        for key, want in wants:
+            hit = False
+            for st, c in conds:
+                c2 = v.ev.term(st.test, at=st, via=[first])
+                hit = hit or v.eq(c, want) or v.eq(c2, want)
+            chk.ob(f"field.Field.__lshift__::reset-when-{key}", hit, "C03.D8",
+                   f"no reset of labels/mapping under {v.show(want)}; conditions found: {[v.show(c) for st, c in conds]}",
+                   v.f, r)
+    # ---- angle
+    v = FV(repo, "field.Field.angle", param_types={"vector": FIELD})
+    ifst, first = cm.field_branch_stmt(v, "vector")
+    for r, a in cm.returned_news(v, via=[first]):
+        chk.ob("field.Field.angle::scalar-result", a.get("nvdim") is not None and is_const(v.ctx, a["nvdim"], 1), "C03.D8",
+               f"nvdim={v.show(a.get('nvdim'))}; an angle field has one component", v.f, r)
+    w = FV(repo, "field.Field.angle")
+    cur = ifst
+    conv = 0
+    want = w.spec("(self.nvdim == 1 and isinstance(vector, numbers.Complex)) or isinstance(vector, (tuple, list, np.ndarray))")
+    want_new = w.spec("self.__class__(self.mesh, nvdim=self.nvdim, value=vector)")
+    while cur.orelse and len(cur.orelse) == 1 and isinstance(cur.orelse[0], ast.If):
+        cur = cur.orelse[0]
+        if always_raises(cur.body):
+            continue
+        conv += 1
+        cond = w.ev.term(cur.test, at=cur)
+        chk.ob("field.Field.angle::plain-operand-condition", w.eq(cond, want), "C03.D8",
+               f"plain operands are converted under {w.show(cond)}; expected: a number for scalar fields, or a sequence", w.f, cur)
+        asg = [x for x in simple_assigns(w, cur.body)]
+        ok = any(w.eq(t, want_new) for st, nm, t in asg)
+        chk.ob("field.Field.angle::plain-operand-conversion", ok, "C03.D8",
+               "a plain operand must become a field on self.mesh with self.nvdim components holding that value", w.f, cur)
+    chk.ob("field.Field.angle::plain-operands-supported", conv >= 1, "C03.D8", "numbers/sequences are no longer converted", w.f)
+    # ---- numpy ufunc protocol
+    d8_ufunc(chk, repo)
+
+
+def _isinstance_polarity(chk, v, q, st, cond, what):
+    """an operand that fails a type test is refused / unequal; one that passes it must not be"""
+    d_pos = decode_call(v.ctx, cond)
+    d_neg = decode_call(v.ctx, v.ev._not(cond))
+    if d_pos and d_pos[0] == "isinstance":
+        chk.ob(f"{q}::type-test-polarity@{v.show(d_pos[1][0])[:40]}", False, "C03.D8",
+               f"`{v.src(st.test)}`: an object that HAS one of the accepted types {what}", v.f, st)
+    elif d_neg and d_neg[0] == "isinstance":
+        chk.ob(f"{q}::type-test-polarity@{v.show(d_neg[1][0])[:40]}", True, "C03.D8", "", v.f, st)
+
+
+def _none_or_default_conds(v):
+    out = []
+    for st in v.stmts():
+        if isinstance(st, ast.If) and not always_raises(st.body) and any(isinstance(x, ast.Assign) for x in st.body):
+            out.append((st, v.ev.term(st.test, at=st)))
+    return out
+
+
+def d8_ufunc(chk, repo):
+    v = FV(repo, "field.Field.__array_ufunc__")
+    apply_st = None
+    for call, st in v.calls():
+        if isinstance(call.func, ast.Call) and isinstance(call.func.func, ast.Name) and call.func.func.id == "getattr":
+            apply_st = st
+            apply_call = call
+    chk.require(apply_st is not None, "__array_ufunc__: the ufunc application vanished")
+    res = v.ev.term(apply_call, at=apply_st)
+    # inputs: fields are replaced by their arrays, everything else is passed on
+    want_in = v.spec("tuple(x.array if isinstance(x, Field) else x for x in inputs)")
+    stars = v.ctx.find_atoms(res, lambda h, a: h[0] == "star")
+    ok = len(stars) == 1 and v.eq(v.ctx.args_of(v.ctx.var(stars[0]))[0], want_in)
+    chk.ob("field.Field.__array_ufunc__::inputs-unwrapped", ok, "C03.D8",
+           f"the ufunc is applied to {v.show(res)[:160]}; expected each Field input replaced by its array and every other input "
+           "passed unchanged", v.f, apply_st)
+    # input type filter
+    conds = _raise_conds(v, [s for s in v.stmts() if isinstance(s, ast.If)], None)
+    shown = []
+    hit = False
+    for st, c in conds:
+        shown.append(v.show(c))
+        nt = v.ev._not(c)
+        d = decode_call(v.ctx, nt)
+        if d and d[0] == "isinstance" and len(d[1]) == 2:
+            h0 = v.ctx.head_of(d[1][0])
+            if h0 and h0[0] == "iter" and is_sym(v.ctx, v.ctx.args_of(d[1][0])[0], "param:inputs"):
+                hit = True
+    chk.ob("field.Field.__array_ufunc__::input-type-filter", hit, "C03.D8",
+           f"inputs must be refused exactly when they are NOT of a supported type; raising conditions: {shown[:4]}", v.f)
+    for st, c in conds:
+        _isinstance_polarity(chk, v, "field.Field.__array_ufunc__", st, c, "is refused")
+    w = FV(repo, "region.Region.allclose")
+    for st, c in _raise_conds(w, [x for x in w.stmts() if isinstance(x, ast.If)], None):
+        _isinstance_polarity(chk, w, "region.Region.allclose", st, c, "is refused")
+    # None is returned for the in-place `at` method only; a tuple result must match the Field inputs one to one
+    for r in v.returns():
+        if r.value is None or (isinstance(r.value, ast.Constant) and r.value.value is None):
+            par = v.cfg.parent.get(id(r))
+            ok = False
+            if par and isinstance(par[0], ast.If) and par[1] == "body":
+                ok = v.eq(v.ev.term(par[0].test, at=par[0]), v.spec("method == 'at'"))
+            chk.ob("field.Field.__array_ufunc__::none-only-for-at", ok, "C03.D8",
+                   "no field is returned on this path; only ufunc.at (which works in place) may return None", v.f, r)
+    meshes = None
+    for st, nm, t in simple_assigns(v):
+        h = v.ctx.head_of(t)
+        if h and h[0] == "seqcomp" and any(hd == ("attr", "mesh") or hd == ("prop", "mesh") for hd in v.ctx.heads_in(t)):
+            meshes = t
+    if meshes is not None:
+        want = v.spec("len(r) != len(m)", env={"r": res, "m": meshes})
+        lens = [(st, c) for st, c in conds if v.ctx.mentions(c, res) and any(hd[0] == "call" and hd[1] == "len" for hd in v.ctx.heads_in(c))
+                and not any(hd[0] == "call" and hd[1].endswith("array_equal") for hd in v.ctx.heads_in(c))]
+        for st, c in lens:
+            chk.ob("field.Field.__array_ufunc__::tuple-result-count-guard", v.eq(c, want), "C03.D8",
+                   f"a tuple result is refused under {v.show(c)[:100]}; expected: its length differs from the number of Field inputs",
+                   v.f, st)
+    # mesh comparison polarity
+    okp = False
+    for st, c in conds:
+        nt = v.ev._not(c)
+        d = decode_call(v.ctx, nt)
+        if d and d[0] == "Mesh.allclose" and any(v.eq(x, v.spec("self.mesh")) for x in d[1]):
+            okp = True
+        h = v.ctx.head_of(c)
+        if h and h[0] == "cmp" and h[1] == "ne" and any(v.eq(x, v.spec("self.mesh")) for x in v.ctx.args_of(c)):
+            okp = True
+    chk.ob("field.Field.__array_ufunc__::mesh-check-polarity", okp, "C03.D8",
+           f"fields must be refused when their mesh is NOT close to self.mesh; raising conditions: {shown[:6]}", v.f)
+    # results
+    news = []
+    for r in v.returns():
+        if r.value is None:
+            continue
+        t = v.ev.term(r.value, at=r)
+        for aid in v.ctx.find_atoms(t, lambda h, a: h[0] == "new" and h[1] == FIELD):
+            d = decode_new(repo, v.ctx, v.ctx.var(aid))
+            news.append((r, d[1], t))
+    chk.require(len(news) >= 2, "__array_ufunc__: expected a tuple-result and a single-result construction")
+    for r, a, t in news:
+        val = a.get("value")
+        single = v.eq(val, res) if val is not None else False
+        h = v.ctx.head_of(val) if val is not None else None
+        elem = bool(h and h[0] == "iter" and v.eq(v.ctx.args_of(val)[0], res)) if val is not None and not single else False
+        chk.ob(f"field.Field.__array_ufunc__::result-value@{'single' if single or not elem else 'tuple'}", single or elem, "C03.D8",
+               f"value={v.show(val)[:120]}; the returned field must hold the ufunc's result", v.f, r)
+        nv = a.get("nvdim")
+        okn = nv is not None and val is not None and v.eq(nv, v.spec("a.shape[-1]", env={"a": val}))
+        chk.ob("field.Field.__array_ufunc__::result-nvdim", okn, "C03.D8",
+               f"nvdim={v.show(nv)[:120]}; expected the last-axis length of the result", v.f, r)
+        if single:
+            chk.ob("field.Field.__array_ufunc__::result-mesh", v.eq(a.get("mesh"), v.spec("self.mesh")), "C03.D8",
+                   f"mesh={v.show(a.get('mesh'))}", v.f, r)
+            ok, det = v.guard("not np.array_equal(r.shape[:-1], self.mesh.n)", exc=("NotImplementedError", "ValueError"),
+                              before=r, env={"r": res})
+            chk.ob("field.Field.__array_ufunc__::result-shape-guard", ok, "C03.D8", det, v.f, r)
